@@ -79,6 +79,11 @@ def corpus():
     for k in KERNELS:
         cs.append(_kde(Xk, 5, k, 1.5, "density", Xt=[[100.0, 200.0], [3.0, 1.0, 2.0]], perms=[1, 2, 3]))
     cs.append(_kde(Xk, 5, "gaussian", None, "uniform", perms=[1, 2]))
+    # long sequences (beyond any plausible internal block size 1k..8k) whose head and tail follow different
+    # laws: a row that depended on how the events are batched would change under permutation
+    for n_long in (4097, 5000, 8200):
+        long_seq = [float(i % 7) for i in range(n_long - 900)] + [50.0 + (i % 5) for i in range(900)]
+        cs.append(_kde([long_seq, [0.0, 55.0, 3.0]], 5, "gaussian", 2.0, "uniform", perms=[1, 2]))
     return cs
 
 
